@@ -26,7 +26,7 @@ def budget(tier):
 
 
 def gen_case(rng, tier, index):
-    hist = dsgen.gen_history(rng, n_sessions=rng.randrange(1, 6),
+    hist = dsgen.gen_history(rng, n_sessions=rng.randrange(1, 6 if tier == "quick" else 9),
                              formats=C.tfrec_share(tier),
                              meta_modes=("none", "none", "some"),
                              bad_rate=rng.choice([0, 0, 0.15]),
